@@ -19,6 +19,11 @@ CHECKS = {
   technique="runtime monitoring with syscall-level fault injection: strace -e inject (errno and SIGKILL at every recorded syscall touching the target), RLIMIT_FSIZE, size-limited tmpfs; byte-compare oracle against `falco fmt FILE`",
   text="The real `falco fmt -w` binary (rebuilt from the tree) runs as an unprivileged user on 13 (quick) / ~37 (thorough) input classes; a fault-free strace trace enumerates every (syscall, occurrence) that touches the file, its descriptors or its directory, and each point is re-run with injected error codes and with SIGKILL at syscall entry, plus file-size limits and a full tmpfs. After every run the file must be its original bytes or exactly the `falco fmt` output, and the original bytes whenever the command reported failure. Exhaustive over the recorded points only.",
   note="Trusts strace's injection (each faulted run is counted only if its own trace shows the fault on the intended syscall), the reference `falco fmt FILE` output of the same binary, and that durability after power loss is out of scope."),
+ "C17": dict(
+  category="exploration", design_ref="DESIGN.md §4 C17",
+  technique="runtime monitoring: debugger snapshot monitor (interpreter.Debugger hook) reading every header spelling and sub-field before each statement + offline store-law checker over the recorded snapshots",
+  text="Operation sequences (set, +=, add, unset, name:key set/unset, wildcard unset) over mixed-case names, sub-field keys and hostile values are executed as VCL by the real interpreter in all 17 (object, scope) pairs where the object is writable; snapshots taken through the interpreter's own read path before every statement are checked against read-after-write, not-set-after-unset, case-insensitivity (value and set/not-set flag), sub-field read-back and the frame rule for sibling sub-fields, other headers and the other object. All sequences of length <=3 over a reduced 44-operation alphabet are enumerated for req/RECV (length <=2 elsewhere); longer ones are PRNG.",
+  note="Trusts the sim package (drives the interpreter as `falco test` does) and the law set as stated in the property; add/+=/wildcard are held only to the weak laws the property states."),
 }
 
 NOT_APPLICABLE = {}
